@@ -8,6 +8,7 @@ import (
 	"os"
 	"runtime"
 	"runtime/debug"
+	"strings"
 	"sync"
 	"sync/atomic"
 	"time"
@@ -99,7 +100,13 @@ func (h *harness) concCase(r *rng, name string, nops int) {
 		return
 	}
 	// scheduling noise at the points where compaction / backup / close hold no lock
-	pogreb.VerifSetYield(func(string) { runtime.Gosched() })
+	pogreb.VerifSetYield(func(point string) {
+		// keep maintenance tasks in flight for a while so that writers, readers and Close land inside them
+		if strings.HasPrefix(point, "compact.") || strings.HasPrefix(point, "backup.") {
+			time.Sleep(50 * time.Microsecond)
+		}
+		runtime.Gosched()
+	})
 	defer pogreb.VerifSetYield(nil)
 	debug.SetPanicOnFault(true)
 
@@ -300,6 +307,10 @@ func (h *harness) concCase(r *rng, name string, nops int) {
 			}
 			startedAtClose = make([]int64, nKeys)
 			err := db.Close()
+			// after Close returns no goroutine started by the database may be left
+			if n := dbGoroutines(); n > 0 {
+				fail("%d goroutine(s) started by the database still running when Close returned", n)
+			}
 			for i := range keys {
 				startedAtClose[i] = atomic.LoadInt64(&keys[i].started)
 			}
@@ -387,6 +398,20 @@ func (h *harness) concCase(r *rng, name string, nops int) {
 	h.stat("conc.fs." + fsName)
 }
 
+// dbGoroutines counts goroutines that were started inside the pogreb package (their creation
+// site is in the package), i.e. background workers.
+func dbGoroutines() int {
+	buf := make([]byte, 1<<20)
+	n := runtime.Stack(buf, true)
+	cnt := 0
+	for _, g := range strings.Split(string(buf[:n]), "\n\n") {
+		if i := strings.Index(g, "created by "); i >= 0 && strings.Contains(g[i:], "github.com/akrylysov/pogreb.") {
+			cnt++
+		}
+	}
+	return cnt
+}
+
 func hxShort(b []byte) string {
 	s := string(b)
 	if len(s) > 3000 {
@@ -407,6 +432,7 @@ func hxShort(b []byte) string {
 }
 
 func (h *harness) runConc(seed uint64, cases, nops int) {
+	h.runCloseRaces(seed)
 	r := &rng{s: seed*0x9e3779b97f4a7c15 + 99}
 	for i := 0; i < cases; i++ {
 		name := fmt.Sprintf("conc-%d-%d", seed, i)
